@@ -98,7 +98,7 @@ THEOREMS = ["T_Hull: every point is a convex combination (lambda >= 0, sum 1) of
 
 
 def run(ctx):
-    res = core.run_tlc("MC_C18", "MC_C18_%s.cfg" % ctx.tier, timeout=1800)
+    res = core.run_model(ctx, "MC_C18", 1800, thorough_seeds=(2, 3, 5))
     core.tlc_must_pass(res, "MC_C18")
     ctx.add_tlc(res, "every shape x parameter: exact convex-combination certificate")
     ctx.theorems = THEOREMS
